@@ -62,6 +62,12 @@ class TransformedTargetForecaster(
         self.steps_ = None
         super(TransformedTargetForecaster, self).__init__()
 
+    def _get_fitted_component_forecasters(self):
+        steps = getattr(self, "steps_", None)
+        if steps and getattr(steps[-1][1], "is_fitted", False):
+            return [steps[-1][1]]
+        return []
+
     def _check_steps(self):
         names, estimators = zip(*self.steps)
 
